@@ -117,12 +117,21 @@ func iterLoops(g *core.XG, n *core.Node) []core.LoopAt {
 	return out
 }
 
+// loopCollectionSymX: loopCollectionSym seen through small private helpers.
+func (e *Env) loopCollectionSymX(g *core.XG, la core.LoopAt) *core.Sym {
+	return e.loopCollectionWith(e.xsym(), g, la)
+}
+
 // loopCollectionSym: like loopCollection, as a symbolic value (nil when not recognisable).
 func (e *Env) loopCollectionSym(g *core.XG, la core.LoopAt) *core.Sym {
+	return e.loopCollectionWith(e.symbolizer(), g, la)
+}
+
+func (e *Env) loopCollectionWith(sy *core.Symbolizer, g *core.XG, la core.LoopAt) *core.Sym {
 	for _, in := range la.L.Header.Instrs {
 		if nx, ok := in.(*ssa.Next); ok {
 			if rg, ok := nx.Iter.(*ssa.Range); ok {
-				return e.symbolizer().InCtx(la.At.Ctx, rg.X)
+				return sy.InCtx(la.At.Ctx, rg.X)
 			}
 		}
 	}
@@ -131,7 +140,7 @@ func (e *Env) loopCollectionSym(g *core.XG, la core.LoopAt) *core.Sym {
 			for _, v := range []ssa.Value{bo.Y, bo.X} {
 				if c, ok := v.(*ssa.Call); ok {
 					if bi, ok := c.Call.Value.(*ssa.Builtin); ok && bi.Name() == "len" {
-						return e.symbolizer().InCtx(la.At.Ctx, c.Call.Args[0])
+						return sy.InCtx(la.At.Ctx, c.Call.Args[0])
 					}
 				}
 			}
